@@ -489,6 +489,15 @@ def ids_e2e_src(item, level, realise, twin):
                 lines.append('    println!("%s {} {}", <Aa as ArchetypeHas<%s>>::COMPONENT_ID, ecs_component_id!(%s, Aa));' % (c, c, c))
                 # the one-argument form resolves against the archetype matched by the enclosing query
                 lines.append('    ecs_iter!(world, |_x: &%s| { println!("%s-in-query {}", ecs_component_id!(%s)); });' % (c, c, c))
+                # a const context and a const generic argument; the one-argument form inside the other four
+                # query macros (typed key, dynamic key, runtime-borrowing, destroying loop that destroys
+                # nothing), with the bare `_` parameter name the documentation uses
+                lines.append('    { const K: u8 = ecs_component_id!(%s, Aa); struct G<const N: u8>; impl<const N: u8> G<N> { fn n(&self) -> u8 { N } }' % c)
+                lines.append('      println!("%s-const {} {}", K, G::<{ ecs_component_id!(%s, Aa) }>.n()); }' % (c, c))
+                lines.append('    ecs_find!(world, e, |_: &%s| { println!("%s-in-find {}", ecs_component_id!(%s)); });' % (c, c, c))
+                lines.append('    { let any: EntityAny = e.into(); ecs_find_borrow!(world, any, |_: &%s| { println!("%s-in-findb {}", ecs_component_id!(%s)); }); }' % (c, c, c))
+                lines.append('    ecs_iter_borrow!(world, |_: &%s| { println!("%s-in-iterb {}", ecs_component_id!(%s)); });' % (c, c, c))
+                lines.append('    ecs_iter_destroy!(world, |_: &%s| { println!("%s-in-iterd {}", ecs_component_id!(%s)); });' % (c, c, c))
     lines.append("}")
     return "\n".join(lines)
 
@@ -502,6 +511,9 @@ def ids_e2e_expected(item, level):
         else:
             out.append("%s %d %d" % (COMPN[i], v, v))
             out.append("%s-in-query %d" % (COMPN[i], v))
+            out.append("%s-const %d %d" % (COMPN[i], v, v))
+            for m in ("find", "findb", "iterb", "iterd"):
+                out.append("%s-in-%s %d" % (COMPN[i], m, v))
     return "\n".join(out)
 
 def ids_enum(tier, seed):
